@@ -48,6 +48,9 @@ type E7Spec struct {
 	LossyIdent    []LossyIdentSpec   `json:"lossy_identifier"`
 	ListFields    []ListFieldSpec    `json:"list_fields"`
 	LostUpdate    []FuncRuleSpec     `json:"lost_update"`
+	ScannerLimit  []FuncRuleSpec     `json:"scanner_limit"`
+	InPlaceFilter []FuncRuleSpec     `json:"inplace_filter"`
+	WriteBack     []FuncRuleSpec     `json:"write_back"`
 }
 
 type FuncRuleSpec struct {
@@ -182,6 +185,15 @@ func runE7(p *Program, sp *Spec, c *Collector) {
 	}
 	for _, lu := range t.LostUpdate {
 		runLostUpdate(p, c, lu)
+	}
+	for _, sl := range t.ScannerLimit {
+		runScannerLimit(p, c, sl)
+	}
+	for _, ipf := range t.InPlaceFilter {
+		runInPlaceFilter(p, c, ipf)
+	}
+	for _, wb := range t.WriteBack {
+		runWriteBack(p, c, wb)
 	}
 	for _, n := range t.NoExit {
 		runNoExit(p, sp, c, n)
@@ -3076,4 +3088,328 @@ func runLostUpdate(p *Program, c *Collector, a FuncRuleSpec) {
 			c.Ob(a.Props, "E7.lost-update", key, Discharged, "no package-level result is re-assigned between the call that produces it and its first use", p.FuncPos(fn), true)
 		}
 	}
+}
+
+// ---------------------------------------------------------------------------------------------
+// scanner limit: bufio.Scanner gives up on a token longer than 64 KiB (Scan returns false, Err is ErrTooLong). A parser that
+// reads its input through a Scanner without enlarging the buffer and without looking at Err silently drops that line and
+// everything after it.
+func runScannerLimit(p *Program, c *Collector, a FuncRuleSpec) {
+	for _, fn := range expandFuncs(p, c, a.Funcs, a.Props...) {
+		n := 0
+		for _, b := range fn.Blocks {
+			for _, in := range b.Instrs {
+				call, ok := in.(*ssa.Call)
+				if !ok || call.Call.StaticCallee() == nil || fullFuncName(call.Call.StaticCallee()) != "bufio.NewScanner" {
+					continue
+				}
+				n++
+				key := fmt.Sprintf("scanner:%s#%d", p.FuncKey(fn), n)
+				handled := false
+				if refs := call.Referrers(); refs != nil {
+					for _, r := range *refs {
+						if c2, ok := r.(*ssa.Call); ok && c2.Call.StaticCallee() != nil {
+							switch fullFuncName(c2.Call.StaticCallee()) {
+							case "bufio.(Scanner).Buffer", "bufio.(Scanner).Err":
+								handled = true
+							}
+						}
+					}
+				}
+				if handled {
+					c.Ob(a.Props, "E7.scanner-limit", key, Discharged, "the scanner's buffer is enlarged or its error is looked at", p.InstrPos(in), true)
+				} else {
+					c.Ob(a.Props, "E7.scanner-limit", key, Violated, a.What+": the input is read through a bufio.Scanner with the default 64 KiB token limit and Err() is never consulted: a longer line ends the scan silently, that line and everything after it are lost", p.InstrPos(in), false)
+				}
+			}
+		}
+		if n == 0 && !strings.Contains(fn.Name(), "$") {
+			c.Ob(a.Props, "E7.scanner-limit", "scanner:"+p.FuncKey(fn), Discharged, "no line scanner with a token limit", p.FuncPos(fn), true)
+		}
+	}
+}
+
+// ---------------------------------------------------------------------------------------------
+// in-place filter: `out := xs[:0]; for … { out = append(out, x) }` re-uses the backing array of xs. When xs is not the function's
+// own (it is a parameter, a field of the receiver, a package variable), the kept elements overwrite the head of the caller's
+// list: whoever still holds xs sees some elements twice and others not at all.
+func runInPlaceFilter(p *Program, c *Collector, a FuncRuleSpec) {
+	for _, fn := range expandFuncs(p, c, a.Funcs, a.Props...) {
+		var bad ssa.Instruction
+		for _, b := range fn.Blocks {
+			for _, in := range b.Instrs {
+				sl, ok := in.(*ssa.Slice)
+				if !ok || bad != nil {
+					continue
+				}
+				if _, isSlice := sl.X.Type().Underlying().(*types.Slice); !isSlice {
+					continue
+				}
+				hi, ok := constInt(sl.High)
+				if sl.High == nil || !ok || hi != 0 {
+					continue
+				}
+				// the source is not allocated by this function
+				own := false
+				var origin func(v ssa.Value, d int)
+				origin = func(v ssa.Value, d int) {
+					if d > 6 {
+						return
+					}
+					switch x := v.(type) {
+					case *ssa.MakeSlice:
+						own = true
+					case *ssa.Slice:
+						if _, isAlloc := x.X.(*ssa.Alloc); isAlloc {
+							own = true
+						} else {
+							origin(x.X, d+1)
+						}
+					case *ssa.Call:
+						if bi, ok := x.Call.Value.(*ssa.Builtin); ok && bi.Name() == "append" {
+							origin(x.Call.Args[0], d+1)
+						} else {
+							own = true // a fresh result of some call
+						}
+					case *ssa.Phi:
+						for _, e := range x.Edges {
+							origin(e, d+1)
+						}
+					}
+				}
+				origin(sl.X, 0)
+				if own {
+					continue
+				}
+				// is the empty re-slice grown with append?
+				grown := false
+				seen := map[ssa.Value]bool{}
+				var follow func(v ssa.Value)
+				follow = func(v ssa.Value) {
+					if seen[v] || v.Referrers() == nil {
+						return
+					}
+					seen[v] = true
+					for _, r := range *v.Referrers() {
+						switch u := r.(type) {
+						case *ssa.Phi:
+							follow(u)
+						case *ssa.Call:
+							if bi, ok := u.Call.Value.(*ssa.Builtin); ok && bi.Name() == "append" && len(u.Call.Args) > 0 && u.Call.Args[0] == v {
+								grown = true
+							}
+						case *ssa.Store:
+							if al, ok := u.Addr.(*ssa.Alloc); ok && u.Val == v {
+								for _, r2 := range *al.Referrers() {
+									if ld, ok := r2.(*ssa.UnOp); ok {
+										follow(ld)
+									}
+								}
+							}
+						}
+					}
+				}
+				follow(sl)
+				if grown {
+					bad = in
+				}
+			}
+		}
+		key := "inplacefilter:" + p.FuncKey(fn)
+		if bad != nil {
+			c.Ob(a.Props, "E7.inplace-filter", key, Violated, a.What+": the result is built by appending to an empty re-slice ([:0]) of a list the function does not own: the kept elements overwrite the head of the caller's list", p.InstrPos(bad), false)
+		} else if !strings.Contains(fn.Name(), "$") {
+			c.Ob(a.Props, "E7.inplace-filter", key, Discharged, "no list is filtered into its own backing array", p.FuncPos(fn), true)
+		}
+	}
+}
+
+// ---------------------------------------------------------------------------------------------
+// write-back: `e := m[k]; e.F = …; m[k] = e` works on a copy of the element. After a field of the copy is assigned, every path
+// to the end of the enclosing loop iteration (or of the function) must hand the copy on — store it back, append it, pass it,
+// return it; otherwise the update is lost (a store-back that sits inside an inner loop is skipped when that loop runs zero times).
+func runWriteBack(p *Program, c *Collector, a FuncRuleSpec) {
+	for _, fn := range expandFuncs(p, c, a.Funcs, a.Props...) {
+		if len(fn.Blocks) == 0 {
+			continue
+		}
+		loops := naturalLoops(fn)
+		innermost := func(b *ssa.BasicBlock) map[*ssa.BasicBlock]bool {
+			var best map[*ssa.BasicBlock]bool
+			for _, l := range loops {
+				if l[b] && (best == nil || len(l) < len(best)) {
+					best = l
+				}
+			}
+			return best
+		}
+		n := 0
+		var bad ssa.Instruction
+		var badName string
+		for _, b := range fn.Blocks {
+			for _, in := range b.Instrs {
+				al, ok := in.(*ssa.Alloc)
+				if !ok || al.Heap {
+					// (escaping locals are handed on by address)
+				}
+				if !ok {
+					continue
+				}
+				if _, isStruct := al.Type().Underlying().(*types.Pointer).Elem().Underlying().(*types.Struct); !isStruct {
+					continue
+				}
+				// initialised from a container element?
+				fromElem := false
+				var fieldStores []*ssa.Store
+				exports := map[ssa.Instruction]bool{}
+				escapes := false
+				if al.Referrers() == nil {
+					continue
+				}
+				for _, r := range *al.Referrers() {
+					switch u := r.(type) {
+					case *ssa.Store:
+						if u.Addr == ssa.Value(al) {
+							switch v := u.Val.(type) {
+							case *ssa.Lookup:
+								fromElem = true
+							case *ssa.Extract:
+								if _, ok := v.Tuple.(*ssa.Lookup); ok {
+									fromElem = true
+								}
+							case *ssa.UnOp:
+								if _, ok := v.X.(*ssa.IndexAddr); ok {
+									fromElem = true
+								}
+							}
+						} else {
+							escapes = true // the address itself is stored somewhere
+						}
+					case *ssa.FieldAddr:
+						if u.Referrers() != nil {
+							for _, r2 := range *u.Referrers() {
+								switch x := r2.(type) {
+								case *ssa.Store:
+									if x.Addr == ssa.Value(u) && !sameFieldValue(x.Val, al, u.Field, 0) {
+										fieldStores = append(fieldStores, x)
+									}
+								case *ssa.UnOp:
+									// the field is read again: the copy serves as a scratch value, the update is used
+									exports[x] = true
+								default:
+									_ = x
+									escapes = true // address of a field handed on
+								}
+							}
+						}
+					case *ssa.UnOp:
+						// a load of the whole record: every use of it hands the record on
+						if u.Referrers() != nil {
+							for _, r2 := range *u.Referrers() {
+								if _, isDbg := r2.(*ssa.DebugRef); !isDbg {
+									exports[r2] = true
+								}
+							}
+						}
+					case *ssa.DebugRef:
+					default:
+						escapes = true
+					}
+				}
+				if !fromElem || escapes || len(fieldStores) == 0 {
+					continue
+				}
+				n++
+				for _, st := range fieldStores {
+					if bad != nil {
+						break
+					}
+					region := innermost(st.Block())
+					// forward search from the store
+					type pt struct {
+						b *ssa.BasicBlock
+						i int
+					}
+					idx := 0
+					for i, x := range st.Block().Instrs {
+						if x == ssa.Instruction(st) {
+							idx = i + 1
+						}
+					}
+					seen := map[*ssa.BasicBlock]bool{}
+					stack := []pt{{st.Block(), idx}}
+					lost := false
+					for len(stack) > 0 && !lost {
+						cur := stack[len(stack)-1]
+						stack = stack[:len(stack)-1]
+						exported := false
+						for j := cur.i; j < len(cur.b.Instrs); j++ {
+							x := cur.b.Instrs[j]
+							if exports[x] {
+								exported = true
+								break
+							}
+							if _, isRet := x.(*ssa.Return); isRet {
+								lost = true
+							}
+						}
+						if exported || lost {
+							continue
+						}
+						for _, sx := range cur.b.Succs {
+							if region != nil && (!region[sx] || sx == loopHeader(region)) {
+								lost = true // the iteration ends (or the loop is left) without handing the copy on
+								break
+							}
+							if !seen[sx] {
+								seen[sx] = true
+								stack = append(stack, pt{sx, 0})
+							}
+						}
+					}
+					if lost {
+						bad = st
+						badName = al.Comment
+					}
+				}
+			}
+		}
+		key := "writeback:" + p.FuncKey(fn)
+		if bad != nil {
+			c.Ob(a.Props, "E7.write-back", key, Violated, a.What+": a field of "+badName+", a copy of a container element, is assigned and on some path the iteration ends without the copy being stored back or handed on: the update is lost (a store-back inside an inner loop is skipped when that loop runs zero times)", p.InstrPos(bad), false)
+		} else if n > 0 {
+			c.Ob(a.Props, "E7.write-back", key, Discharged, fmt.Sprintf("%d element copies are updated; each is handed on before the iteration ends", n), p.FuncPos(fn), true)
+		}
+	}
+}
+
+// sameFieldValue: v is what field f of the record at al already holds (loaded from it, possibly through a single-store local):
+// storing it back changes nothing.
+func sameFieldValue(v ssa.Value, al *ssa.Alloc, f int, depth int) bool {
+	if depth > 4 {
+		return false
+	}
+	u, ok := v.(*ssa.UnOp)
+	if !ok || u.Op != token.MUL {
+		return false
+	}
+	switch x := u.X.(type) {
+	case *ssa.FieldAddr:
+		return x.X == ssa.Value(al) && x.Field == f
+	case *ssa.Alloc:
+		var st *ssa.Store
+		n := 0
+		if x.Referrers() != nil {
+			for _, r := range *x.Referrers() {
+				if s, ok := r.(*ssa.Store); ok && s.Addr == ssa.Value(x) {
+					st = s
+					n++
+				}
+			}
+		}
+		if n == 1 {
+			return sameFieldValue(st.Val, al, f, depth+1)
+		}
+	}
+	return false
 }
